@@ -36,7 +36,7 @@ META = {
 
 SRC_FILES = ["src/rime/algo/syllabifier.cc", "src/rime/algo/syllabifier.h", "src/rime/algo/spelling.h",
              "src/rime/dict/prism.cc", "src/rime/dict/prism.h", "src/rime/algo/algebra.cc", "src/rime/algo/calculus.cc"]
-GENERATOR_VERSION = 1
+GENERATOR_VERSION = 2
 
 
 def hx(s):
@@ -77,19 +77,42 @@ def gen_syllabary(rng, letters, n):
     return sorted(syls)
 
 
-def gen_prism(rng, idx, letters=None):
-    """one prism spec: syllabary, algebra / explicit rows, build mode, delimiters"""
+# letter pools beyond a-z (what real spellers use: tone digits, `;` `,` `.` `/` keys of double-pinyin layouts, upper case).
+# REGEX_SAFE pools may be pasted into the formula templates; the others are used without spelling algebra only.
+NONAZ_POOLS = {
+    "digit": ["ab1", "a12", "ab12", "a1b"],
+    "punct": ["ab;", "a;,", "ab_", "a;b"],
+    "upper": ["aB", "abA", "AB", "ABc"],
+    "mixed": ["a1;", "aA1", "A1;", "b2B"],
+}
+NONAZ_RAW_POOLS = ["a.b", "ab/", "a-b", "a[b", "a=1", "a b"]     # regex / formula-separator characters: no formulas
+
+
+def gen_prism(rng, idx, letters=None, mode=None, load=None):
+    """one prism spec: syllabary, algebra / explicit rows, build mode, delimiters.
+    mode: None = random | 'plain' (Prism::Build without a script) | 'script' (identity script, maybe explicit rows) |
+    'algebra' (formulas) | 'rows' (explicit typed rows).  load: None = random | True | False."""
     letters = letters or rng.choice(["abc", "abc", "abcd", "ab"])
+    regex_safe = letters not in NONAZ_RAW_POOLS
     p = {"name": "g%d" % idx, "letters": letters, "syls": gen_syllabary(rng, letters, rng.randint(2, 8)),
-         "formulas": [], "rows": [], "mode": "script", "load": rng.random() < 0.8}
+         "formulas": [], "rows": [], "mode": "script", "load": (rng.random() < 0.8) if load is None else load}
     kind = rng.random()
+    if mode == "plain":
+        kind = 0.0
+    elif mode == "algebra":
+        kind = 0.5
+    elif mode in ("script", "rows"):
+        kind = 0.9
+    if kind >= 0.2 and kind < 0.75 and not regex_safe:
+        kind = 0.9
+    want_rows = mode == "rows" or (mode is None and (kind >= 0.75 or rng.random() < 0.35)) or (mode == "script" and rng.random() < 0.5)
     if kind < 0.2:
         p["mode"] = "plain"
     elif kind < 0.75:
         for _ in range(rng.randint(1, 3)):
             x, y = rng.sample(list(letters), 2)
             p["formulas"].append(rng.choice(FORMULAS).replace("{L}", letters).replace("{x}", x).replace("{y}", y))
-    if p["mode"] == "script" and (kind >= 0.75 or rng.random() < 0.35):
+    if p["mode"] == "script" and want_rows:
         for _ in range(rng.randint(1, 5)):
             r = rng.random()
             if r < 0.4:
@@ -109,6 +132,55 @@ def gen_prism(rng, idx, letters=None):
     r = rng.random()
     p["delims"] = "'" if r < 0.6 else " '" if r < 0.8 else "'" + rng.choice(letters) if r < 0.92 else ""
     return p
+
+
+def gen_chain_prism(rng, idx, letters, depth, style):
+    """deep nesting: EVERY prefix of one code of `depth` letters is itself a stored spelling, so `depth` spellings match
+    at one input position (Prism::CommonPrefixSearch returns them all; pinyin reaches 6: z zh zhu zhua zhuan zhuang).
+    style 'plain' / 'script': all prefixes are syllables of their own; 'abbrev': the prefixes are rows that abbreviate /
+    fuzzily spell the longer codes (incremental abbreviation), the full code and a few prefixes stay normal."""
+    w = "".join(rng.choice(letters) for _ in range(depth))
+    prefixes = [w[:i] for i in range(1, depth + 1)]
+    extra = set()
+    for _ in range(rng.randint(0, 3)):
+        r = rng.random()
+        if r < 0.4:
+            extra.add(w[rng.randrange(1, depth):][:rng.randint(1, 4)])        # a piece from the middle
+        elif r < 0.7:
+            extra.add(rng.choice(prefixes)[:rng.randint(1, 6)] + rng.choice(letters))   # a branch off the chain
+        else:
+            extra.add("".join(rng.choice(letters) for _ in range(rng.randint(1, 3))))
+    p = {"name": "chain%d" % idx, "letters": letters, "formulas": [], "rows": [], "mode": "plain" if style == "plain" else "script",
+         "load": rng.random() < 0.8, "chain": w}
+    if style in ("plain", "script"):
+        p["syls"] = sorted(set(prefixes) | extra)
+    else:
+        full = [x for x in prefixes if len(x) == depth or rng.random() < 0.25]
+        p["syls"] = sorted(set(full) | extra)
+        for x in prefixes:
+            if x in full:
+                continue
+            longer = [y for y in full if y.startswith(x)]
+            ss = rng.sample(longer, min(len(longer), rng.randint(1, 2)))
+            p["rows"].append((x, [(y, rng.choice([1, 2, 2]), rng.randint(1, 2)) for y in ss]))
+    r = rng.random()
+    p["delims"] = "'" if r < 0.7 else " '" if r < 0.85 else ""
+    return p
+
+
+def key_inputs(rng, keys, letters, delims, cap):
+    """inputs derived from the stored spellings themselves: each spelling, each spelling cut short / extended by a letter /
+    followed by a delimiter, pairs of spellings; a sample of at most `cap`"""
+    dl = delims or "'"
+    res = []
+    ks = [k for k in keys if k]
+    for k in ks:
+        res += [k, k[:-1], k + rng.choice(letters), k + dl[0], k + rng.choice(ks), rng.choice(ks) + k,
+                rng.choice(ks) + dl[0] + k]
+    res = [x for x in dict.fromkeys(res) if x]
+    if len(res) > cap:
+        res = rng.sample(res, cap)
+    return res
 
 
 def spec_lines(p):
@@ -140,10 +212,23 @@ def random_inputs(rng, keys, letters, delims, count, lo, hi):
 
 
 # ----------------------------------------------------------------------------- parsing harness / driver lines
+AZ = frozenset(b"abcdefghijklmnopqrstuvwxyz")
+EXPAND_LIMIT = 512
+
+
 class Table:
-    def __init__(self, alphabet):
-        self.alphabet = alphabet
+    def __init__(self, loaded):
+        self.loaded = loaded    # the prism object was Load()ed from its saved file (else: Build() only)
         self.rows = []          # (key bytes, [(syl, type, cred16)])
+        self.stored_alphabet = None   # what the object's metadata holds (harness `A` line)
+
+    def expandable(self, rem):
+        """spellings Prism::ExpandSearch reaches below `rem`: every step of the walk below `rem` takes a character of the
+        alphabet in use — all characters of all spellings for a loaded prism, a-z for an object that was only built
+        (format_ stays 0.0).  Independent of the model: plain string tests."""
+        if self.loaded:
+            return [(k, ds) for k, ds in self.rows if k.startswith(rem)]
+        return [(k, ds) for k, ds in self.rows if k.startswith(rem) and all(ch in AZ for ch in k[len(rem):])]
 
     def add(self, key, descs):
         self.rows.append((key, descs))
@@ -216,6 +301,8 @@ def oracle(tab, delims, comp, strict, inp, g, feats=None):
             for e, kds in out[s].items():
                 if any(admitted(s, e, d[1]) for _, ds in kds for d in ds):
                     reach.add(e)
+            if sum(len(kds) for kds in out[s].values()) > 8:
+                feats.add("nested-matches>8")
     F = max(reach)
     il = g["il"]
     for s in reach:
@@ -231,6 +318,20 @@ def oracle(tab, delims, comp, strict, inp, g, feats=None):
     if il != F:
         if not (il == n and comp and F < n and any(d[1] < 2 for _, ds in compl_keys for d in ds)):
             bad.append(("S3", "interpreted_length %d, farthest tileable %d" % (il, F)))
+    elif comp and F < n:
+        # the other direction: completion is on and the expand search below the remainder reaches a spelling with a
+        # normal or fuzzy reading -> the whole input is interpreted (limit 512 never reached by these prisms)
+        reach_keys = tab.expandable(rem)
+        if len(reach_keys) > EXPAND_LIMIT:
+            feats.add("expand-limit-reached")
+        else:
+            hit = next((k for k, ds in reach_keys if any(d[1] < 2 for d in ds)), None)
+            if hit is not None:
+                bad.append(("S3", "completion is enabled and the remainder %r begins the spelling %r (%s prism), yet the "
+                            "interpreted length stays at the tiled prefix %d of %d" %
+                            (rem.decode("latin-1"), hit.decode("latin-1"), "loaded" if tab.loaded else "built-only", F, n)))
+        if compl_keys and not reach_keys:
+            feats.add("completion-blocked-by-default-alphabet")
     E = g["E"]
     # S1 soundness of every syllable on every edge
     for (s, e), sm in E.items():
@@ -343,6 +444,8 @@ class Runner:
         self.prisms = 0
         self.prism_rows = 0
         self.prism_types = {}
+        self.prism_how = {}
+        self.nonaz_prisms = 0
         self.notes = []
 
     def run_spec(self, name, lines, minimise=True):
@@ -369,10 +472,14 @@ class Runner:
         olines = out.split("\n")
         ops, expect = [], []          # driver op lines; expect[i] = G line (without px) or "ok"
         pend = None
+        builds = [l.split(" ", 1)[1] for l in lines if l.startswith("build ")]     # how each prism of the spec came to be
         for l in olines:
             if l.startswith("P ") or l.startswith("K "):
                 ops.append(l)
                 expect.append("ok")
+            elif l.startswith("A "):
+                ops.append("A")
+                expect.append(l[2:])
             elif l.startswith("Q "):
                 pend = l
             elif l.startswith("G ") and pend is not None:
@@ -387,13 +494,28 @@ class Runner:
         if not ops:
             return 0
         drv = vlib.run_driver("driver_c08", "\n".join(ops) + "\n").split("\n")
-        tab, prism_ops, nq = None, [], 0
+        tab, prism_ops, nq, how = None, [], 0, None
         for i, (op, ex) in enumerate(zip(ops, expect)):
             md = drv[i] if i < len(drv) else "<missing>"
             if op[0] == "P":
-                tab = Table(unhx(op.split(" ")[1]))
+                tab = Table(op.split(" ")[1] == "1")
                 prism_ops = [op]
+                how = builds.pop(0) if builds else None
+                if how is not None and (how.split(" ")[1] == "load") != tab.loaded:
+                    self.notes.append("%s: P line %r does not echo the spec's build line %r" % (name, op, how))
                 self.prisms += 1
+                self.prism_how[how] = self.prism_how.get(how, 0) + 1
+                continue
+            if op == "A":
+                tab.stored_alphabet = unhx(ex)
+                if any(x not in AZ for x in tab.stored_alphabet):
+                    self.nonaz_prisms += 1
+                want = bytes(sorted({x for k, _ in tab.rows for x in k}, key=lambda x: (x + 128) % 256))
+                if tab.stored_alphabet != want:      # O: the stored alphabet is the set of characters of the spellings
+                    self.ofails.setdefault("alphabet", {"spec": name, "prism": list(prism_ops), "op": op, "impl": ex, "build": how,
+                                                        "detail": "the prism's metadata alphabet %r is not the set of characters of its spellings %r" % (tab.stored_alphabet, want)})
+                if ex != md and len(self.mismatches) < 50:
+                    self.mismatches.append({"spec": name, "prism": list(prism_ops), "op": op, "impl": ex, "model": md, "build": how})
                 continue
             if op[0] == "K":
                 k, ds = parse_K(op)
@@ -410,7 +532,7 @@ class Runner:
             impl = ex.rsplit(" px=", 1)[0]
             if impl != md:
                 if len(self.mismatches) < 50:
-                    self.mismatches.append({"spec": name, "prism": list(prism_ops), "op": op, "impl": impl, "model": md})
+                    self.mismatches.append({"spec": name, "prism": list(prism_ops), "op": op, "impl": impl, "model": md, "build": how})
             if self.check_model and impl != md or self.check_model and nq % 7 == 0:
                 try:
                     for clause, detail in oracle(tab, delims, comp, strict, inp, parse_G(md + " px=1")):
@@ -428,11 +550,12 @@ class Runner:
                 cur = self.ofails.get(clause)
                 if cur is None or len(inp) < len(unhx(cur["op"].split(" ")[4])):
                     self.ofails[clause] = {"spec": name, "prism": list(prism_ops), "op": op, "impl": ex, "detail": detail,
-                                           "input": inp.decode("latin-1")}
+                                           "input": inp.decode("latin-1"), "build": how}
             fs |= features(tab, g, inp, delims)
             for x in fs:
                 self.feat[x] = self.feat.get(x, 0) + 1
-            if fs & {"multi-edge", "completion", "ambiguous-joint", "pruned-edge", "pruned-syllable", "strict-dropped-edge"}:
+            if fs & {"multi-edge", "completion", "ambiguous-joint", "pruned-edge", "pruned-syllable", "strict-dropped-edge",
+                     "completion-blocked-by-default-alphabet"}:
                 self.nontrivial.add((self.prisms, op))
                 if len(self.samples) < 6 and (self.evaluations % 97 == 0 or not self.samples):
                     self.samples.append({"prism": [x for x in prism_ops], "op": op, "impl": ex})
@@ -471,32 +594,62 @@ def run(c):
     # corpus first
     for name, lines in corpus_specs():
         R.run_spec("corpus/" + name, lines)
-    # generated prisms
-    plan = []
+    # generated prisms: (prism spec, maxlen of the exhaustive enumeration, #random inputs, random length range)
+    jobs = []
     if quick:
-        plan += [("abc", 6)] * 2 + [("abc", 5)] * 3 + [("abcd", 5)] * 2 + [("abcd", 4)] * 4 + [("ab", 7)] + [(None, 4)] * 10
+        plan = [("abc", 6)] * 2 + [("abc", 5)] * 3 + [("abcd", 5)] * 2 + [("abcd", 4)] * 4 + [("ab", 7)] + [(None, 4)] * 10
         nrand, rlo, rhi = 60, 7, 14
+        grid_len, grid_raw, chains = 4, 2, [9, 10, 12]
     else:
-        plan += ([("abc", 8)] * 3 + [("abc", 7)] * 6 + [("abcd", 7)] * 2 + [("abcd", 6)] * 6 + [("ab", 10)] * 2
-                 + [(None, 5)] * 60)
+        plan = ([("abc", 8)] * 3 + [("abc", 7)] * 6 + [("abcd", 7)] * 2 + [("abcd", 6)] * 6 + [("ab", 10)] * 2
+                + [(None, 5)] * 60)
         nrand, rlo, rhi = 400, 7, 20
-    for idx, (letters, maxlen) in enumerate(plan):
-        p = gen_prism(rng, idx, letters)
+        grid_len, grid_raw, chains = 5, 6, [9, 9, 10, 10, 11, 11, 12, 12, 13, 16]
+    idx = 0
+    for letters, maxlen in plan:
+        jobs.append((gen_prism(rng, idx, letters), maxlen, nrand, rlo, rhi))
+        idx += 1
+    # directed grid: spellings over characters OUTSIDE a-z (tone digits, punctuation keys, upper case) x how the prism is
+    # made (no script / identity script + typed rows / spelling algebra) x {Save+Load, Build only}
+    for cls in sorted(NONAZ_POOLS):
+        for mode in ("plain", "script", "algebra"):
+            for load in (True, False):
+                jobs.append((gen_prism(rng, idx, rng.choice(NONAZ_POOLS[cls]), mode=mode, load=load), grid_len, nrand // 2, 5, 12))
+                idx += 1
+    for _ in range(grid_raw):
+        jobs.append((gen_prism(rng, idx, rng.choice(NONAZ_RAW_POOLS), mode=rng.choice(["plain", "rows"]), load=rng.random() < 0.7),
+                     grid_len, nrand // 2, 5, 12))
+        idx += 1
+    # deep nesting: 9-16 spellings matching at one position
+    for depth in chains:
+        letters = rng.choice(["a", "ab", "ab", "abc", "a1", "aB;"])
+        jobs.append((gen_chain_prism(rng, idx, letters, depth, rng.choice(["plain", "plain", "script", "abbrev"])),
+                     3 if len(letters) > 1 else 5, nrand, depth, 2 * depth + 4))
+        idx += 1
+    maxlens = set()
+    for p, maxlen, nr, lo, hi in jobs:
         lines = spec_lines(p)
-        symbols = p["letters"] + "'"
-        if " " in p["delims"] and maxlen <= 5 and rng.random() < 0.5:
+        symbols = p["letters"] + ("" if "'" in p["letters"] else "'")
+        if " " in p["delims"] and " " not in symbols and maxlen <= 5 and rng.random() < 0.5:
             symbols += " "
         lines.append("qall %s %s %d" % (hx(p["delims"]), hx(symbols), maxlen))
+        maxlens.add(maxlen)
         keys = list(p["syls"]) + [k for k, _ in p["rows"]]
-        for s in random_inputs(rng, keys, p["letters"], p["delims"], nrand, rlo, rhi):
+        more = key_inputs(rng, keys, p["letters"], p["delims"], 40 if quick else 200)
+        more += random_inputs(rng, keys, p["letters"], p["delims"], nr, lo, hi)
+        if p.get("chain"):
+            w, dl = p["chain"], (p["delims"] or "'")
+            more += [w, w + w, w + dl[0] + w, w[1:] + w, w[:-1] + w, w + w[:len(w) // 2]]
+        for s in dict.fromkeys(more):
             for cc in (0, 1):
                 for ss in (0, 1):
                     lines.append("q %s %d %d %s" % (hx(p["delims"]), cc, ss, hx(s)))
         R.run_spec(p["name"] + ":" + json.dumps({k: p[k] for k in ("syls", "formulas", "rows", "mode", "load", "delims")}), lines)
     # ------------------------------------------------------------------ verdicts
     for clause, case in sorted(R.ofails.items()):
-        c.report("C08:%s" % clause, "%s: %s (input %r, flags completion=%s strict=%s)" %
-                 (clause, case["detail"], case.get("input"), case["op"].split(" ")[2], case["op"].split(" ")[3]),
+        f = case["op"].split(" ")
+        c.report("C08:%s" % clause, "%s: %s (input %r, flags completion=%s strict=%s, prism made by `build %s`)" %
+                 (clause, case["detail"], case.get("input"), f[2] if len(f) > 3 else "-", f[3] if len(f) > 3 else "-", case.get("build")),
                  {"kind": "impl-violation", "case": case})
     for cr in R.crashes[:1]:
         c.report("C08:sanitizer", "sanitizer abort / crash of the syllabifier harness (rc=%s)" % cr["rc"], {"kind": "sanitizer", "case": cr})
@@ -526,9 +679,13 @@ def run(c):
         "rule": ("generated syllabaries over 2-4 letters (concatenations of other spellings, prefixes, dead ends) built into REAL prisms "
                  "(plain / script / spelling algebra formulas / explicit typed rows incl. delimiter bytes inside spellings and empty "
                  "descriptor lists; Save+Load or Build only), every input over letters+delimiter up to length %s x {completion} x {strict} "
-                 "(harness-enumerated) plus %d random longer inputs per prism; corpus first. non-trivial = the graph has >= 2 edges, a "
-                 "completion edge or an ambiguous joint; distinct by (prism, flags, input)") % (sorted({m for _, m in plan}), nrand),
-        "samples": R.samples, "prisms": R.prisms, "prism_spellings": R.prism_rows, "descriptor_types": R.prism_types,
+                 "(harness-enumerated) plus %d random longer inputs per prism and inputs derived from the spellings (each spelling, cut "
+                 "short, extended, pairs); a directed grid of prisms whose spellings use characters outside a-z (digits, punctuation, "
+                 "upper case, regex/separator characters) x {no script, identity script + typed rows, spelling algebra} x {Save+Load, "
+                 "Build only}; chains where every prefix of a 9-16 letter code is a spelling (9+ matches at one position); corpus first. "
+                 "non-trivial = the graph has >= 2 edges, a completion edge or an ambiguous joint, or completion is blocked by the "
+                 "a-z default alphabet of a built-only prism; distinct by (prism, flags, input)") % (sorted(maxlens), nrand),
+        "samples": R.samples, "prisms": R.prisms, "prisms_by_build": R.prism_how, "prisms_with_non_az_alphabet": R.nonaz_prisms, "prism_spellings": R.prism_rows, "descriptor_types": R.prism_types,
         "feature_counts": R.feat, "correspondence_mismatches": len(R.mismatches), "impl_monitor_failures": len(R.ofails),
         "sanitizer_aborts": len(R.crashes), "harness_notes": R.notes[:10], "generator_version": GENERATOR_VERSION,
         "source_hash": vlib.source_hash(SRC_FILES), "proof_failures": audit["failures"],
@@ -545,10 +702,20 @@ def replay(c, r):
         print("replay: this file names a broken obligation, no concrete input:", r.get("what"))
         return 1
     R = Runner(c)
+    how = (case.get("build") or "script load").split(" ")
     lines, rows, name = prism_spec_from_ops(case["prism"])
-    for key, ds in rows:
-        lines.append("row %s %s" % (hx(key), ",".join("%s:%d:x%s" % (hx(name(d[0])), d[1], d[2]) for d in ds) or "-"))
-    lines.append("build script load")
+    if how[0] == "plain":
+        # a prism without a spelling map: the spellings ARE the syllabary (id order = sorted order)
+        lines = ["prism"] + ["syl " + hx(key) for key, _ in rows]
+    else:
+        for key, ds in rows:
+            lines.append("row %s %s" % (hx(key), ",".join("%s:%d:x%s" % (hx(name(d[0])), d[1], d[2]) for d in ds) or "-"))
+    lines.append("build %s %s" % ("plain" if how[0] == "plain" else "rows", how[1] if len(how) > 1 else "load"))
+    if case["op"] == "A":
+        R.run_spec("replay", lines)
+        for clause, cs in sorted(R.ofails.items()):
+            print("replay A -> %s: %s" % (clause, cs["detail"]))
+        return 1 if (R.ofails or R.mismatches or R.crashes) else 0
     _, dl, cc, ss, ih = case["op"].split(" ")
     lines.append("q %s %s %s %s" % (dl, cc, ss, ih))
     R.run_spec("replay", lines)
